@@ -1,13 +1,13 @@
 SPECIFICATION Spec
 CONSTANTS
   ServerEnv = TRUE
-  OutLens <- ONone
+  OutLens <- O302
   CutIn = 0
-  FirstMayBeEmpty = TRUE
+  FirstMayBeEmpty = FALSE
   Limit = 6
   MinRead = 0
   MaxRead = 7
-  Variant = "code"
+  Variant = "zero_read_unguarded"
 INVARIANT TypeOK
 INVARIANT GotIsCanonPrefix
 INVARIANT CleanEndMeansAll
